@@ -95,7 +95,9 @@ class ModelResultsHandler:
         Create final data frames of results
         """
         for agg in self.aggregates:
-            merge_on = ["postal_code", "reporting", agg]
+            # merge on every key column of the level (district offices also carry "district")
+            key_columns = ["postal_code", "district", "county_classification", "county_fips"]
+            merge_on = [col for col in key_columns if col in self.estimates[agg][0].columns] + ["reporting"]
             # joins together dfs of the same level of aggregation (different estimands)
             agg_df = reduce(lambda x, y: pd.merge(x, y, how="inner", on=merge_on), self.estimates[agg])
             self.final_results[VALID_AGGREGATES_MAPPING.get(agg)] = agg_df
